@@ -1,6 +1,8 @@
 package ext
 
 import (
+	"strings"
+
 	lang "github.com/alligator/jqawk/src"
 	"github.com/alligator/jqawk/zzverif/vh"
 )
@@ -30,6 +32,12 @@ func c03Item(name string, kind int, tag string) (any, string, bool) {
 		g := vh.Bytes(name+"g", 1)
 		vh.Assume(vh.Not(vh.OneOf(g[0], " \t\n\r\"{[]}-0123456789tfn")))
 		return vh.Fault{Kind: vh.Garbage, Text: g}, "", false
+	case 7:
+		// three arbitrary bytes (a byte-order mark, a stray word ...), the first of which
+		// cannot begin a value
+		g := vh.Bytes(name+"g3", 3)
+		vh.Assume(vh.Not(vh.OneOf(g[0], " \t\n\r\"{[]}-0123456789tfn")))
+		return vh.Fault{Kind: vh.Garbage, Text: g}, "", false
 	}
 	return vh.Fault{Kind: vh.Truncated, Text: "{\"t\": 1, \"b\":"}, "", false
 }
@@ -44,7 +52,7 @@ func VHC03Faults() {
 	want := ""
 	bad := -1
 	for i := 0; i < k; i++ {
-		kind := vh.Choose("kind"+itoa(i), 7)
+		kind := vh.Choose("kind"+itoa(i), 8)
 		if kind == 5 && i != k-1 {
 			kind = 0 // a truncated value can only be the last thing in a stream
 		}
@@ -132,4 +140,45 @@ func VHC03Files() {
 		vh.Assert(k == ErrJSON && je.FileName == "two", "C03: a fault in the second file is reported for that file")
 		vh.Assert(out.String() == o1+o2, "C03: earlier files and values are processed normally")
 	}
+}
+
+var c03Sparse = []string{
+	"BEGIN { print 'B' }",
+	"END { print 'E' }",
+	"",
+	"ENDFILE { print 'EF' }",
+	"BEGIN { print 'B' }\nBEGIN { x = 1 }",
+	"$.nosuch { print 'never' }",
+	"function f() { return 1 }",
+	"BEGINFILE { print 'BF' }",
+}
+
+// VHC03Programs: whether a fault in the input is reported does not depend on what the
+// program does with the input: programs made only of BEGIN rules, only of END rules,
+// of nothing at all ... still read every value and report the first fault.
+func VHC03Programs() {
+	prog := c03Sparse[vh.Choose("prog", len(c03Sparse))]
+	nvals := vh.Choose("nvals", 3)
+	var items []any
+	for i := 0; i < nvals; i++ {
+		items = append(items, map[string]any{"t": "v" + itoa(i), "b": true})
+	}
+	fk := vh.Choose("fk", 8)
+	if fk != 0 {
+		f, _, _ := c03Item("x", fk, "")
+		items = append(items, f)
+	}
+	var out vh.Out
+	ds := &vh.DocStream{Items: items, Mode: vh.Choose("mode", 5)}
+	_, err := lang.EvalProgram(prog, []lang.InputFile{{Name: "in.json", Reader: ds}}, nil, &out, false)
+	k := legal(err, "EvalProgram")
+	vh.Reach("sparse program evaluated")
+	if fk == 0 {
+		vh.Assert(k == OK, "C03: a clean stream is accepted whatever the program: "+lbl(prog))
+		return
+	}
+	vh.Assert(k == ErrJSON, "C03: a fault in the input is a JSON input error whatever the program does with the input: "+lbl(prog))
+	je, _ := err.(lang.JsonError)
+	vh.Assert(je.FileName == "in.json", "C03: the JSON error names the file: "+lbl(prog))
+	vh.Assert(!strings.Contains(out.String(), "E\n"), "C03: END rules do not run after a JSON input error")
 }
